@@ -602,7 +602,11 @@ func (mi *muxInst) videoData(u wunit) [][]byte {
 		au = append(au, append([]byte{6 << 3}, payloadTail(u, 0)...))
 	case "vp9":
 		if u.RA {
-			au = append(au, append(bytes.Clone(mi.cfg.pset(kind, p).keyHdr), payloadTail(u, 0)...))
+			hdr := bytes.Clone(mi.cfg.pset(kind, p).keyHdr)
+			if u.Seq%3 == 0 && mi.cfg.pset(kind, p).profile != 3 {
+				hdr[0] &^= 0x02 // every third key frame is a hidden one (show_frame = 0): a key frame all the same
+			}
+			au = append(au, append(hdr, payloadTail(u, 0)...))
 		} else {
 			au = append(au, append([]byte{0x86, 0x00}, payloadTail(u, 0)...))
 		}
